@@ -18,7 +18,7 @@ type Step struct {
 	Ops    []refmodel.Op
 	Sync   bool
 	NoWait bool   // do not wait for the reply before the next step
-	RbMode string // latest | random | nonexistent
+	RbMode string // latest | latest-change | random | nonexistent | index
 	RbArg  int
 	Target string
 	Codes  []codes.Code
@@ -66,6 +66,7 @@ type Profile struct {
 	PStartOffline  int // % chance that a target is offline at the start
 	PDevFault      int // % chance of a transient device fault burst after a step
 	PCrash         int // % chance that the scenario contains one crash
+	PSlowPlugin    int  // % of model-plugin validations that stall for 5..40 ms (one target's validation much slower than another's)
 	PStoreFault    int  // per-mille probability that a controller's store call fails with a transient error
 	AllowClash     bool
 	RejectCode     codes.Code // gRPC code the device answers a refused value with (default InvalidArgument)
@@ -76,7 +77,7 @@ type Profile struct {
 var richLeaves = []string{"/foo", "/bar", "/fo", "/a/b", "/a/c", "/a/bc", "/a/d/e", "/a/d/ee", "/ab/x", "/cont/leaf2", "/cont/leaf2a", "/cont-x/leaf",
 	"/c/l[k=x]/v", "/c/l[k=xy]/v", "/c/l[k=x]/n", "/c/l[k=x]/sub/x", "/c/l[k=x]/in[id=1]/w", "/c/l[k=x]/in[id=10]/w", "/c/lx[k=x]/v",
 	"/c/m[k1=1][k2=2]/v", "/c/m[k1=1][k2=3]/v", "/c/m[k1=10][k2=2]/v", "/c/l[k=x]/k"}
-var richDeletes = []string{"/foo", "/fo", "/a", "/a/b", "/a/d", "/ab", "/cont", "/cont/leaf2", "/c/l[k=x]", "/c", "/c/m[k1=1][k2=2]", "/c/l[k=x]/v",
+var richDeletes = []string{"/foo", "/fo", "/a", "/a/b", "/a/d", "/ab", "/cont", "/cont/leaf2", "/c/l[k=x]", "/c/l", "/c/m", "/c", "/c/m[k1=1][k2=2]", "/c/l[k=x]/v",
 	"/c/l[k=x]/in[id=1]", "/c/l[k=x]/sub", "/c/l[k=x]/k", "/c/m[k1=1][k2=2]/k1"}
 var basicLeaves = []string{"/foo", "/bar", "/goo", "/a/b", "/a/c"}
 var basicDeletes = []string{"/foo", "/a", "/a/b"}
@@ -189,11 +190,13 @@ func GenScenario(r *fw.Rng, p *Profile, s *refmodel.Schema) []Step {
 		}
 		if sets > 0 && r.Chance(p.PRollback, 100) {
 			mode := "latest"
-			switch r.Intn(6) {
+			switch r.Intn(8) {
 			case 0:
 				mode = "random"
 			case 1:
 				mode = "nonexistent"
+			case 2, 3, 4:
+				mode = "latest-change"
 			}
 			steps = append(steps, Step{Kind: "rollback", RbMode: mode, RbArg: r.Intn(1000), NoWait: r.Chance(p.PNoWait, 100)})
 		} else {
